@@ -18,7 +18,7 @@ def showErr : Option Chunk.Err → String
 def hashBytes (b : Bytes) : Nat := b.foldl (fun h x => (h * 31 + x.toNat + 1) % 4294967296) 7
 
 def summary (c : Chunk) : String :=
-  s!";s={c.size},m={c.remaining},sp={c.space},c={c.cap},h={hashBytes c.unread}"
+  s!";s={c.size},m={c.remaining},sp={c.space},c={c.cap},h={hashBytes c.unread},e={if c.isEmpty then 1 else 0},a={if c.available 3 then 1 else 0}"
 
 def beN (k n : Nat) : Bytes :=
   match k with
